@@ -13,6 +13,7 @@ import (
 	"strings"
 	"sync/atomic"
 	"time"
+	"verif/harness/jsonx"
 
 	at "github.com/DanielSvub/anytype"
 )
@@ -185,6 +186,7 @@ func members(cls string, rng *rand.Rand, full bool) []member {
 		m := map[string]any{"a": 1, "b": []any{int8(2), map[string]any{"c": uint16(3)}}}
 		out = append(out, member{v: m, content: `{"a":1,"b":[2,{"c":3}]}`, mutate: func() { m["a"] = 99; m["z"] = 1 }})
 		out = append(out, member{v: map[string]any{}, content: `{}`})
+		out = append(out, member{v: map[string]any{"p": []any{}, "q": map[string]any{}, "r": []any{}, "s": map[string]any{}, "t": []int{}, "u": map[string]string{}}, content: `{"p":[],"q":{},"r":[],"s":{},"t":[],"u":{}}`})
 	case "map[string]Object":
 		o := at.NewObject("x", 1)
 		m := map[string]at.Object{"o": o}
@@ -195,19 +197,24 @@ func members(cls string, rng *rand.Rand, full bool) []member {
 	case "map[string]string":
 		m := map[string]string{"s": "t"}
 		out = append(out, member{v: m, content: `{"s":"t"}`, mutate: func() { m["s"] = "u" }})
+		out = append(out, member{v: map[string]string{}, content: `{}`})
 	case "map[string]bool":
 		m := map[string]bool{"b": true}
 		out = append(out, member{v: m, content: `{"b":true}`, mutate: func() { m["b"] = false }})
+		out = append(out, member{v: map[string]bool{}, content: `{}`})
 	case "map[string]int":
 		m := map[string]int{"i": 7}
 		out = append(out, member{v: m, content: `{"i":7}`, mutate: func() { m["i"] = 8 }})
+		out = append(out, member{v: map[string]int{}, content: `{}`})
 	case "map[string]float64":
 		m := map[string]float64{"f": 1.5}
 		out = append(out, member{v: m, content: `{"f":1.5}`, mutate: func() { m["f"] = 2.5 }})
+		out = append(out, member{v: map[string]float64{}, content: `{}`})
 	case "[]any":
 		s := []any{1, "a", nil, []any{uint8(2)}, map[string]any{"k": float32(0.5)}}
 		out = append(out, member{v: s, content: `[1,"a",null,[2],{"k":0.5}]`, mutate: func() { s[0] = 99; s[3].([]any)[0] = 98 }})
 		out = append(out, member{v: []any{}, content: `[]`})
+		out = append(out, member{v: []any{[]any{}, map[string]any{}, []any{}, map[string]any{}, []string{}, map[string]float64{}, []any{[]any{}}}, content: `[[],{},[],{},[],{},[[]]]`})
 	case "[]Object":
 		s := []at.Object{at.NewObject("x", 1), at.NewObject()}
 		out = append(out, member{v: s, content: `[{"x":1},{}]`, mutate: func() { s[0] = at.NewObject("y", 2) }})
@@ -217,15 +224,19 @@ func members(cls string, rng *rand.Rand, full bool) []member {
 	case "[]string":
 		s := []string{"a", ""}
 		out = append(out, member{v: s, content: `["a",""]`, mutate: func() { s[0] = "z" }})
+		out = append(out, member{v: []string{}, content: `[]`})
 	case "[]bool":
 		s := []bool{true, false}
 		out = append(out, member{v: s, content: `[true,false]`, mutate: func() { s[0] = false }})
+		out = append(out, member{v: []bool{}, content: `[]`})
 	case "[]int":
 		s := []int{3, -1}
 		out = append(out, member{v: s, content: `[3,-1]`, mutate: func() { s[0] = 0 }})
+		out = append(out, member{v: []int{}, content: `[]`})
 	case "[]float64":
 		s := []float64{1.5, -2.25}
 		out = append(out, member{v: s, content: `[1.5,-2.25]`, mutate: func() { s[0] = 0 }})
+		out = append(out, member{v: []float64{}, content: `[]`})
 	case "[]Object{nil}":
 		out = append(out, member{v: []at.Object{nil, at.NewObject()}, content: `[null,{}]`})
 	case "[]List{nil}":
@@ -549,6 +560,29 @@ func wellFormed(c any) (err error) {
 	return nil
 }
 
+// pureNative: a native Go tree without anytype containers inside (those are stored by identity, not converted)
+func pureNative(v any) bool {
+	switch x := v.(type) {
+	case []any:
+		for _, e := range x {
+			if !pureNative(e) {
+				return false
+			}
+		}
+		return true
+	case map[string]any:
+		for _, e := range x {
+			if !pureNative(e) {
+				return false
+			}
+		}
+		return true
+	case at.Object, at.List, []at.Object, []at.List, map[string]at.Object, map[string]at.List:
+		return false
+	}
+	return true
+}
+
 func checkConvert(r *convRec, m member) error {
 	w := wrapCtx(r.Ctx, m.v)
 	var h holder
@@ -662,6 +696,54 @@ func checkConvert(r *convRec, m member) error {
 			}
 			if after != "" {
 				return fmt.Errorf("modifying the source %T after insertion changed the container to %s", m.v, after)
+			}
+		}
+		if r.Fresh {
+			// "fresh": a second conversion of the same native value yields other containers at every depth, and what is
+			// done to the first result never shows in the second
+			var h2 holder
+			if p := func() (p any) {
+				defer func() { p = recover() }()
+				var early2 any
+				h2, _ = insert(r.Ep, wrapCtx(r.Ctx, m.v), &early2)
+				return nil
+			}(); p != nil {
+				return fmt.Errorf("the second insertion of the same %T was rejected: %v", m.v, p)
+			}
+			hh2, err := descend(h2, r.Ctx)
+			if err != nil {
+				return err
+			}
+			got2 := hh2.get()
+			seen := map[any]string{}
+			dup := ""
+			walkContainers(got, func(c any) {
+				if _, twice := seen[c]; twice {
+					dup = "one container appears twice inside the result of one conversion"
+				}
+				seen[c] = "first"
+			})
+			walkContainers(got2, func(c any) {
+				if seen[c] == "first" {
+					dup = "two conversions of the same value share a container"
+				}
+			})
+			if dup != "" && pureNative(m.v) {
+				return fmt.Errorf("%T: %s (a native map/slice must become a fresh container every time, at every depth)", m.v, dup)
+			}
+			if pureNative(m.v) {
+				before, err := jsonx.Project(got2)
+				if err != nil {
+					return fmt.Errorf("second conversion of %T cannot be read: %v", m.v, err)
+				}
+				reshape(got, "first")
+				after, err := jsonx.Project(got2)
+				if err == nil {
+					err = jsonx.EqualTree(before, after, "$")
+				}
+				if err != nil {
+					return fmt.Errorf("changing the containers made from one %T changed those made from another conversion of it: %v", m.v, err)
+				}
 			}
 		}
 	}
